@@ -151,7 +151,73 @@ fn argv_ok(c: &Case) -> bool {
     argv(c).iter().all(|a| proc::argv_safe(a))
 }
 
+#[derive(Debug, Clone, Hash, Serialize, Deserialize)]
+pub struct GitCase {
+    pub branch: usize,
+    pub tag: usize,
+    pub commits_after: u8,
+    pub dirty: bool,
+    pub schema: SchemaSel,
+    pub pep440: bool,
+    pub flow: bool,
+}
+fn check_git(c: &GitCase, cx: &mut Cx) -> Res {
+    use crate::gitlab::{Op, Repo};
+    let mut repo = match Repo::new() {
+        Ok(r) => r,
+        Err(e) => {
+            infra(format!("cannot create repository: {e}"));
+            return Ok(());
+        }
+    };
+    let mut ops = vec![Op::Branch { name: c.branch }, Op::Tag { name: c.tag, annotated: false, at: None }];
+    for _ in 0..c.commits_after {
+        ops.push(Op::Commit { time_skew: 0 });
+    }
+    if c.dirty {
+        ops.push(Op::DirtyUntracked);
+    }
+    for op in &ops {
+        if let Err(e) = repo.apply(op) {
+            infra(format!("git operation failed in the harness: {e}"));
+            return Ok(());
+        }
+    }
+    let mut args = vec![if c.flow { "flow".to_string() } else { "version".to_string() }, "-C".into(), repo.path()];
+    match &c.schema {
+        SchemaSel::Default => {}
+        SchemaSel::Preset(i) => args.push(format!("--schema={}", if c.flow { zg::PRESETS[*i % 11] } else { zg::PRESETS[*i % 22] })),
+        SchemaSel::Ron(s) => args.push(format!("--schema-ron={}", s.to_ron())),
+    }
+    args.push(format!("--output-format={}", if c.pep440 { "pep440" } else { "semver" }));
+    let o = proc::run(&proc::Spec { args: args.clone(), cwd: Some("/".into()), ..Default::default() });
+    if o.timed_out {
+        infra("zerv -C timed out");
+        return Ok(());
+    }
+    cx.label_if(o.ok(), "succeeded");
+    if !o.ok() {
+        return Ok(()); // e.g. the tag is not a version: no output is the right outcome (C02/C13)
+    }
+    let text = String::from_utf8(o.stdout.clone()).map_err(|_| Bad::Fail("stdout is not UTF-8".into()))?;
+    let line = text.strip_suffix('\n').ok_or_else(|| Bad::Fail(format!("stdout {text:?} does not end with a newline")))?;
+    cx.nt_if(!crate::gitlab::BRANCHES[c.branch % 10].chars().all(|ch| ch.is_ascii_alphanumeric()));
+    cx.note(|| format!("{args:?} -> {line}"));
+    check_body(line, c.pep440, !matches!(c.schema, SchemaSel::Ron(_)))
+}
+
 pub fn property() -> Property {
+    let git = RandomSub::<GitCase>::new(
+        "git-source",
+        (80, 1_200),
+        |_| {
+            (0usize..10, 0usize..22, 0u8..3, any::<bool>(), prop_oneof![2 => Just(SchemaSel::Default), 3 => (0usize..22).prop_map(SchemaSel::Preset), 2 => zg::valid_schema().prop_map(SchemaSel::Ron)], any::<bool>(), prop::bool::weighted(0.3))
+                .prop_map(|(branch, tag, commits_after, dirty, schema, pep440, flow)| GitCase { branch, tag, commits_after, dirty, schema, pep440, flow })
+                .boxed()
+        },
+        check_git,
+    )
+    .shrink_iters(60);
     let l1 = RandomSub::<Case>::new("render-valid", (150_000, 2_500_000), |_| case_strategy(), check_l1).floor(0.2);
     let l2 = RandomSub::<Case>::new(
         "cli-one-line",
@@ -201,9 +267,9 @@ pub fn property() -> Property {
         rule: "cases = (source none|stdin object, schema: default | one of the 22 presets | generated valid --schema-ron, random VCS/override/bump/index flags, output format, optional prefix); vars carry nasty Unicode text in branch/hash/custom/literal positions and boundary numbers. Oracle on every successful run: prefix + one line; body accepted by the independent SemVer recogniser resp. equal to its own PEP 440 normal form per the independent normaliser; ASCII; zerv's own parser and `check` accept it; for preset schemas re-rendering in the same format is the identity. Non-trivial = run succeeded and a free-text position (branch, hash, custom value, str() literal) contained a character outside [A-Za-z0-9], or the body has >=10 digits; distinct = distinct cases.",
         assumptions: vec![
             "only successful runs are judged here (failures: C13)",
-            "git source is exercised by the C02/C03 git sub-checks, which apply the same body check",
+            "git-source: real repositories whose branch names need sanitising (Unicode, @, +, digits-only, leading zeros), version and flow, through the real binary",
         ],
-        subs: vec![l1.boxed(), l2.boxed()],
+        subs: vec![l1.boxed(), l2.boxed(), git.boxed()],
         known_repro: vec![(
             "F16",
             "render-valid",
